@@ -43,6 +43,7 @@ M = {
  "records the new threshold": ("C01", "RecurrencePlot(sparse_rqa=True).set_fixed_threshold(t) left self.threshold unchanged: sequential RQA values stale"),
  "recomputes the missing-value indices": ("C01", "RecurrencePlot(missing_values=True): assigning a new embedding kept the old missing_value_indices"),
  "no longer write into their array arguments": ("C06", "Data.rescale, GeoGrid.region_indices and GeoNetwork.latlon2cartesian modified their array arguments in place (finding #30)"),
+ "clears the diagonal instead of subtracting": ("C07", "JointRecurrenceNetwork([0,0],[0,0],threshold=(0,1)) had adjacency [[-1,0],[0,-1]] (JR - identity where JR[i,i]==0)"),
  "vanishing Fourier amplitudes": ("C15", "refined_AAFT_surrogates returned NaN rows when a Fourier coefficient of the iterate was exactly zero (e.g. [1,-1,2,-2,3,-3,0,0])"),
 }
 fixed = []
@@ -57,6 +58,7 @@ known = [
  {"property": "C03", "match": r"^bounded:link_betweenness/directed-link-covered$", "what": "link_betweenness on directed networks assumes igraph's undirected edge order: directed 8-cycle, link 7->0 gets 0"},
  {"property": "C05", "match": r"^bounded:(SpatialNetwork\.|GeoNetwork\.)?save_load\[gml\]/node_weights$", "what": "igraph's GML writer strips '_' from attribute names: node_weight_nsi is written as nodeweightnsi and Load returns unit (or cos-lat) weights"},
  {"property": "C05", "match": r"^bounded:adjacency_setter/known29-N-change-node-weights$", "what": "adjacency.setter can change N while node_weights keep their old length (finding #29)"},
+ {"property": "C07", "match": r"^bounded:RecurrenceNetwork/missing/(rqa-size-consistent-with-R|setter/adjacency-is-R-without-diagonal)$", "what": "RecurrenceNetwork(missing_values=True) with a NaN state: self.N becomes the order of the reduced network while R keeps its full order (recurrence_rate() 0.625 instead of 0.4; first set_* call uses the wrong diagonal stride)"},
  {"property": "C09", "match": r"^bounded:consistency/undirected-adjacency-symmetric$", "what": "HavlinClimateNetwork(SmallTestData, max_delay=3): similarity is asymmetric (S[0,1]=4.94, S[1,0]=4.16) but the network is declared undirected"},
  {"property": "C10", "match": r"^bounded:cross_correlation/lag-int8-range$", "what": "lag stored as int8 wraps for tau_max > 127: true lag 130 reported as -126 (finding #18)"},
  {"property": "C10", "match": r"^bounded:mutual_information/binning-lagged-norm$", "what": "binned MI with tau_max > 0 normalises entropies by T instead of T - tau_max (factor 0.9 for T=60, tau_max=6)"},
